@@ -315,6 +315,8 @@ impl<L> ClientBuilder<L> {
 		let (client_dropped_tx, client_dropped_rx) = oneshot::channel();
 		let (send_receive_task_sync_tx, send_receive_task_sync_rx) = mpsc::channel(1);
 		let manager = ThreadSafeRequestManager::new();
+		#[cfg(jsonrpsee_verif)]
+		let verif_manager = manager.clone();
 
 		let (ping_interval, inactivity_stream, inactivity_check) = match self.ping_config {
 			None => (IntervalStream::pending(), IntervalStream::pending(), InactivityCheck::Disabled),
@@ -367,6 +369,8 @@ impl<L> ClientBuilder<L> {
 			error: ErrorFromBack::new(to_back, disconnect_reason),
 			id_manager: RequestIdManager::new(self.id_kind),
 			on_exit: Some(client_dropped_tx),
+			#[cfg(jsonrpsee_verif)]
+			verif_manager: Some(verif_manager),
 		}
 	}
 
@@ -426,6 +430,8 @@ impl<L> ClientBuilder<L> {
 			error: ErrorFromBack::new(to_back, disconnect_reason),
 			id_manager: RequestIdManager::new(self.id_kind),
 			on_exit: Some(client_dropped_tx),
+			#[cfg(jsonrpsee_verif)]
+			verif_manager: None,
 		}
 	}
 }
@@ -443,6 +449,9 @@ pub struct Client<L = RpcLogger<RpcService>> {
 	/// When the client is dropped a message is sent to the background thread.
 	on_exit: Option<oneshot::Sender<()>>,
 	service: L,
+	/// Handle to the request manager shared with the background tasks (verification accessor only).
+	#[cfg(jsonrpsee_verif)]
+	verif_manager: Option<ThreadSafeRequestManager>,
 }
 
 impl Client<Identity> {
@@ -482,6 +491,12 @@ impl<L> Client<L> {
 	/// Returns configured request timeout.
 	pub fn request_timeout(&self) -> Duration {
 		self.request_timeout
+	}
+
+	/// Sizes of the request manager's four tables: requests, subscriptions, batches, notification handlers.
+	#[cfg(jsonrpsee_verif)]
+	pub fn verif_table_sizes(&self) -> [usize; 4] {
+		self.verif_manager.as_ref().map_or([0; 4], |m| m.lock().verif_table_sizes())
 	}
 }
 
@@ -927,6 +942,9 @@ where
 					break Ok(());
 				};
 
+				#[cfg(jsonrpsee_verif)]
+				crate::verif_hooks::point("client:send_task:before_handle").await;
+
 				if let Err(e) =
 					handle_frontend_messages(msg, &manager, &mut sender, max_buffer_capacity_per_subscription).await
 				{
@@ -944,7 +962,11 @@ where
 	};
 
 	from_frontend.close();
+	#[cfg(jsonrpsee_verif)]
+	crate::verif_hooks::point("client:send_task:after_frontend_close").await;
 	let _ = sender.close().await;
+	#[cfg(jsonrpsee_verif)]
+	crate::verif_hooks::point("client:send_task:before_close_tx").await;
 	let _ = close_tx.send(res).await;
 }
 
@@ -1003,6 +1025,8 @@ where
 				match handle_backend_messages::<R>(Some(msg), &manager, max_buffer_capacity_per_subscription) {
 					Ok(messages) => {
 						for msg in messages {
+							#[cfg(jsonrpsee_verif)]
+							crate::verif_hooks::point("client:read_task:before_followup").await;
 							pending_unsubscribes.push(to_send_task.send(msg));
 						}
 					}
@@ -1020,6 +1044,8 @@ where
 		}
 	};
 
+	#[cfg(jsonrpsee_verif)]
+	crate::verif_hooks::point("client:read_task:before_close_tx").await;
 	let _ = close_tx.send(res).await;
 }
 
@@ -1034,6 +1060,8 @@ async fn wait_for_shutdown(
 
 	// Send an error to the frontend if the send or receive task completed with an error.
 	if let Either::Left((Some(Err(err)), _)) = future::select(rx_item, client_dropped).await {
+		#[cfg(jsonrpsee_verif)]
+		crate::verif_hooks::point("client:shutdown:before_cause").await;
 		*err_to_front.write().expect(NOT_POISONED) = Some(Arc::new(err));
 	}
 }
